@@ -203,6 +203,45 @@ def unit(job, variant, pi, seed, length, fork_every):
             if v.valid and any(e["tag"] == Tag.REJECT for e in evs):
                 fail("valid-but-rejected", skill=comp.name, component_class=type(comp).__name__,
                      cooldown_time_left=tl, synthetic="cooldown.time_left of a harvested state set to a boundary value")
+    # boundary states of every OTHER number a state holds (stacks, gauges, counters): each numeric field of each entity
+    # of a harvested state is set to the component's own thresholds (its numeric configuration values, and 0 / 1), to
+    # one below and to one above, with the cooldown ready -- the view and `use` must draw the line at the same place
+    seen_cls = set()
+    for _sig, call in hv.calls.items():
+        comp = call["owner"]
+        st0 = call["args"][-1]
+        if call["method"] != "validity" or not hasattr(comp, "use") or type(comp).__name__ in seen_cls:
+            continue
+        seen_cls.add(type(comp).__name__)
+        cfg = [v for v in comp.model_dump().values() if isinstance(v, (int, float)) and not isinstance(v, bool) and 0 <= v <= 1e6]
+        cands = sorted({x for v in cfg for x in (v - 1, v, v + 1) if x >= 0} | {0, 1, 2})[:16]
+        for ename in type(st0).model_fields:
+            ent = getattr(st0, ename, None)
+            if ent is None or not hasattr(type(ent), "model_fields") or ename in ("cooldown", "dynamics"):
+                continue
+            for fname in type(ent).model_fields:
+                cur = getattr(ent, fname, None)
+                if isinstance(cur, bool) or not isinstance(cur, (int, float)):
+                    continue
+                for val in cands:
+                    st = _copy.deepcopy(st0)
+                    try:
+                        setattr(getattr(st, ename), fname, type(cur)(val))
+                        if hasattr(st, "cooldown"):
+                            st.cooldown.time_left = 0.0
+                        v = comp.validity(_copy.deepcopy(st))
+                        _new, evs = comp.use(None, _copy.deepcopy(st))
+                    except Exception:  # noqa: BLE001 -- a synthetic state the component cannot be in
+                        continue
+                    out["boundary_states"] += 1
+                    evs = evs if isinstance(evs, list) else ([] if evs is None else [evs])
+                    own = [e for e in evs if e.get("name") == comp.name]
+                    if v.valid and any(e["tag"] == Tag.REJECT for e in own):
+                        fail("valid-but-rejected", skill=comp.name, component_class=type(comp).__name__,
+                             synthetic=f"{ename}.{fname} of a harvested state set to {val} (cooldown ready)",
+                             state={k: getattr(st, k).model_dump() for k in type(st).model_fields
+                                    if hasattr(getattr(st, k, None), "model_dump")})
+                        break
     out["sample"] = {"job": job, "plan": [command_text(c) for c in cmds][:10]}
     return out
 
